@@ -277,7 +277,13 @@ def run(ctx):
     # random grammar-derived + all single-char mutations
     rng = ctx.rng
     quota = 40 if ctx.quick else 700
-    mut_alpha = ALPHABET + '+_a9Z\t'
+    mut_alpha = ALPHABET + '+_a9Z\t{}%\\'
+    # characters that mean something to string formatting / escaping, inside and outside slices
+    for hs in ('/001001[{}]', '/001001[0:{]', '/001001[{x}]', '/0010{}[0:', '@[{0}]/001001', '/001001[%s]', '{}', '/{0}', '/001001[%d:1]',
+               '/001001[1:{0!r}]', '@[{}', '/001001[\\]', '/001001[:%(a)s]', '/001001]{', '/00{1001'):
+        for prs in (parser, parser1):
+            judge(ctx, prs, PathExprParsingError, hs, 'hostile')
+            ctx.count('hostile_strings')
     for q in range(quota):
         if not ctx.more():
             break
